@@ -20,6 +20,7 @@ import (
 
 	"github.com/csgura/fp"
 	"github.com/csgura/fp/hash"
+	"github.com/csgura/fp/immutable"
 )
 
 // ---- value universe -------------------------------------------------------------------
@@ -244,8 +245,54 @@ func (h *hist) resH(k kind, v any, hi int) *entry {
 	e := h.res(k, v)
 	if e != nil {
 		e.hi = hi
+		h.census(e)
 	}
 	return e
+}
+
+// census counts which trie node kinds the live maps / sets contain (hook immutable.VerifCheck).
+func (h *hist) census(e *entry) {
+	var c immutable.VerifCensus
+	var err error
+	switch e.kind {
+	case kMap:
+		m := e.v.(FMap)
+		if m.Base == nil {
+			h.w.Add("live.zero_value_maps", 1)
+			return
+		}
+		c, err = immutable.VerifCheck(m.Base)
+	case kSet:
+		sm := fp.VerifSetMinimal(e.v.(FSet))
+		if sm == nil {
+			h.w.Add("live.zero_value_sets", 1)
+			return
+		}
+		c, err = immutable.VerifCheckSet(sm)
+	default:
+		return
+	}
+	if err == immutable.ErrVerifNotHamt {
+		h.w.Add("live.collections_backed_by_go_map", 1)
+		return
+	}
+	if err != nil {
+		return // structural soundness of the trie is C03's business
+	}
+	h.w.Add("live.tries", 1)
+	if c.HashArray > 0 {
+		h.w.Add("live.tries_with_hash_array_node", 1)
+	}
+	if c.Collision > 0 {
+		h.w.Add("live.tries_with_collision_node", 1)
+	}
+	if c.Bitmap > 0 {
+		h.w.Add("live.tries_with_bitmap_node", 1)
+	}
+	if c.Array > 0 {
+		h.w.Add("live.tries_with_array_node", 1)
+	}
+	h.w.Max("max_trie_entries", int64(c.Entries))
 }
 
 func toSeq(v any) Seq {
@@ -575,7 +622,7 @@ func runCase(w *vrt.W, i int) {
 	if w.Tier == "thorough" {
 		steps, maxLive = 60, 18
 	}
-	h := &hist{w: w, idx: i, r: r, universe: []int{6, 12, 24, 40}[r.IntN(4)], maxLive: maxLive}
+	h := &hist{w: w, idx: i, r: r, universe: []int{6, 12, 24, 48}[r.IntN(4)], maxLive: maxLive}
 	w.Begin(i, "history")
 	w.Guard(i, h.witness, func() { h.run(steps) })
 	w.Done(i)
@@ -619,7 +666,7 @@ func main() {
 			"race batches (thorough): 2 goroutines apply read-only operations to shared live values; only reports with a frame under /repo count",
 		},
 		Floors: func(tier string) map[string]int64 {
-			f := map[string]int64{"snapshots_compared": 100000, "ops.on_value_sharing_storage": 1000, "distinct": 200, "builder.refused_after_build": 1, "concurrent.rounds": 10}
+			f := map[string]int64{"snapshots_compared": 100000, "ops.on_value_sharing_storage": 1000, "distinct": 200, "builder.refused_after_build": 1, "concurrent.rounds": 10, "live.tries_with_hash_array_node": 50, "live.tries_with_collision_node": 50, "live.tries_with_bitmap_node": 50, "live.tries_with_array_node": 50, "live.collections_backed_by_go_map": 50}
 			for _, op := range ops {
 				f["hit."+op.name] = 1
 			}
